@@ -48,6 +48,10 @@ def run(ctx):
     ctx.do(rule_id_rule)
     ctx.do(rule_regexes)
     ctx.do(rule_tlp)
+    # timestamps are emitted with the digits their slot prescribes only if every value went through the truncation pipeline
+    from . import C15
+    ctx.do(C15.rule_truncate, rule_id="C02.timestamp-pipeline")
+    ctx.do(C15.rule_property_forward, rule_id="C02.timestamp-pipeline")
     from .hidden_state import rule_no_hidden_state
     ctx.do(rule_no_hidden_state, "C02.history-independence")
 
@@ -452,6 +456,22 @@ def rule_clean_contract(ctx):
             raise AnalysisError("anchor missing: %s.%s" % (cid, name))
         return f
 
+    # reference cleaner: EVERY normal return has passed the identifier check and the allowed/forbidden type test -- also when the
+    # value arrives as a library object (its id was validated under ITS property's rules, not this slot's)
+    rf = fn("ReferenceProperty")
+    g_ = cfg_of(rf)
+    ok_id, p_id = g_.must_pass(lambda n: node_calls(n, lambda c: call_name(c) == "_validate_id"))
+    type_tests = [n for n in g_.nodes if n.kind == "test" and isinstance(n.ast, ast.If) and any(
+        isinstance(s_, ast.Raise) for s_ in n.ast.body) and any(
+        isinstance(v_, ast.AST) and ("is_stix_type" in norm(v_)) for nm_ in names_in(n.ast.test)
+        for _dn, v_ in ReachingDefs(g_, rf.all_param_names()).reaching(n, nm_))]
+    ok_ty, p_ty = (g_.must_pass(lambda n: n in type_tests) if type_tests else (False, None))
+    run.check(ok_id and ok_ty, R, key(rf.module.relpath, rf.qualname, "every-return-validated"),
+              "a path of ReferenceProperty.clean returns a reference without %s: a reference of a type this slot forbids (or "
+              "with an identifier this spec version refuses) is accepted when it is given in that form and emitted"
+              % ("the identifier check" if not ok_id else "the allowed/forbidden type test"), file=rf.module.relpath,
+              line=rf.node.lineno, function=rf.qualname, expected="_validate_id(...) and `if not type_ok: raise` on every normal path",
+              found="bypass", path=g_.describe_path(p_id or p_ty))
     # numeric conversion + range guards (siblings Integer / Float)
     tables = {}
     for cid, conv in (("IntegerProperty", "int"), ("FloatProperty", "float")):
